@@ -35,8 +35,11 @@ func c18paths(c *Ctx) {
 		// directory names are literal text, also when they look like shell variables (one of them is set in this process)
 		"/srv/$Recycle.Bin", "/data/ws$BUILD_7781_X/src", "/opt/$STAGE/app", "/var/${HOME}/x",
 		// a mapping whose short form is empty (the prefix is dropped altogether)
-		"/build/strip-this-prefix", "/mnt/vol1/users/alice/empty"}
-	replPool := []string{"~d", "~p", "$SRV", "~w", "~alice", "CI:", "~deep", "~gosrc", "~work", "~tmp", "~u", "~bin", "~ws", "~stage", "~brace", "", ""}
+		"/build/strip-this-prefix", "/mnt/vol1/users/alice/empty",
+		// prefixes that are not absolute (file names of a -trimpath build, a checkout next to the working directory, a
+		// drive-letter path seen on another system)
+		"github.com/acme/private", "../private-checkout", "C:/work/src"}
+	replPool := []string{"~d", "~p", "$SRV", "~w", "~alice", "CI:", "~deep", "~gosrc", "~work", "~tmp", "~u", "~bin", "~ws", "~stage", "~brace", "", "", "GH:acme", "~pc", "W:"}
 	_ = os.Setenv("STAGE", "prod")
 	_ = os.Setenv("BUILD_7781_X", "")
 	rxPool := []rxMap{{expr: `^/mnt/vol[0-9]+/`, repl: "~vol/"}, {expr: `^/net/[a-z]+/export/`, repl: "~net/"}, {expr: `^/Users/[^/]+/`, repl: "~/"},
@@ -91,7 +94,7 @@ func c18paths(c *Ctx) {
 		nops := r.Intn(12)
 		added := map[string]bool{}
 		for i := 0; i < nops; i++ {
-			switch r.Intn(8) {
+			switch r.Intn(9) {
 			case 0, 1, 2:
 				k := r.Intn(len(prefixPool))
 				slog.AddKnownPathMapping(prefixPool[k], replPool[k])
@@ -116,6 +119,13 @@ func c18paths(c *Ctx) {
 					rxs = append(rxs, x)
 					hist = append(hist, "addrx "+x.expr)
 				}
+			case 7:
+				// the package-level Reset() restores level and flags; the path tables are not its business
+				saved := slog.GetFlags()
+				slog.Reset()
+				slog.SetFlags(saved)
+				hist = append(hist, "Reset()")
+				c.R.Add("histories_with_a_package_Reset", 1)
 			case 5:
 				// a pattern that does not compile: whatever the registration does with it (today it panics, which the
 				// caller recovers), it is not a rule, and later queries work as before
